@@ -2,6 +2,7 @@ import PycsepVerif.Drive.C14
 import PycsepVerif.Model.PersistText
 import PycsepVerif.Model.FloatText
 import PycsepVerif.Model.CatalogJson
+import PycsepVerif.Model.CatalogDoc
 /-! driver ops of property C14, text level: the characters of the CSEP-ASCII file.
   Texts travel as `x` + hex of their bytes (ASCII).  Float codec of these ops: `FloatText.floatStr` / `floatOfStr`
   (the model of `str(numpy.float64)` / `float()`), so nothing about the file is left to the harness. -/
@@ -54,6 +55,25 @@ def handle : List String → Option String
   | ["c14_json_unstr", xs] => some (
       match (xs.splitOn ";").mapM unhex with
       | some xs => ";".intercalate (xs.map (fun x => match CatalogJson.decodeString x with | some s => hex s | none => "!"))
+      | none => "bad-op")
+  -- c14_reprbits <b;b;…> : float.__repr__ / str(numpy.float64) of the doubles with these bit patterns (−0.0, subnormals too)
+  | ["c14_reprbits", bs] => some (
+      match (bs.splitOn ";").mapM String.toNat? with
+      | some bs => ";".intercalate (bs.map (fun b => hex (CatalogDoc.reprBits b)))
+      | none => "bad-op")
+  -- c14_doc_load <text> : CSEPCatalog.load_json on the characters of a JSON file -> catalog id, name, events (bit patterns), region
+  | ["c14_doc_load", t] => some (
+      match unhex t with
+      | some t =>
+        (match (JsonText.parse CatalogDoc.catFloatText t).bind CatalogDoc.fromTree with
+         | some c =>
+           let ev := fun (e : CatalogDoc.DocEvent) => s!"{hex e.id.toList},{e.ms},{e.lat},{e.lon},{e.depth},{e.mag}"
+           let evs := if c.events.isEmpty then "-" else ";".intercalate (c.events.map ev)
+           let reg := match c.region with
+             | none => "none"
+             | some r => s!"{hex r.name.toList}:{r.dh}:" ++ ",".intercalate (r.polygons.map (fun (p : Nat × Nat) => s!"{p.1}/{p.2}"))
+           s!"ok {showCatId c.catalogId} {match c.name with | none => "none" | some n => hex n.toList} {evs} {reg}"
+         | none => "not-a-catalog-document")
       | none => "bad-op")
   | _ => none
 end Drive.C14Text
